@@ -36,6 +36,7 @@ fn params(args: &[String]) -> sim::Params {
         scenario: arg_s(args, "--scen"),
         cut: arg_s(args, "--cut").and_then(|s| s.parse().ok()),
         no_poison: flag(args, "--no-poison"),
+        suppress_refused: flag(args, "--suppress-refused"),
     }
 }
 
@@ -202,6 +203,30 @@ fn main() {
             let budget_ms: u64 = arg(&args, "--budget-ms", 600_000u64);
             let hashes_out = arg_s(&args, "--hashes");
             let t0 = std::time::Instant::now();
+            world::EAGER.store(true, std::sync::atomic::Ordering::Relaxed);
+            // hang watchdog: a single history normally takes well under a millisecond; if the
+            // beacon does not move for `stall` seconds while control is inside a crate call, the
+            // crate is stuck on a legal history. Report and leave.
+            let stall: u64 = arg(&args, "--stall-s", if cfg!(miri) { 600 } else { 90 });
+            let label = format!("prop {} seed {} scen {:?} small {}", p.prop, p.seed, p.scenario, p.small);
+            std::thread::spawn(move || {
+                use std::io::Write;
+                let mut last = u64::MAX;
+                let mut since = std::time::Instant::now();
+                loop {
+                    std::thread::sleep(std::time::Duration::from_millis(500));
+                    let b = world::BEACON.load(std::sync::atomic::Ordering::Relaxed);
+                    if b != last {
+                        last = b;
+                        since = std::time::Instant::now();
+                    } else if since.elapsed().as_secs() >= stall && b & 0xff != 0 {
+                        let phase = ["", "poll", "push", "drop"][(b & 0xff) as usize & 3];
+                        let _ = writeln!(std::io::stdout(), "HANG {{\"hist\":{},\"phase\":\"{}\",\"stall_s\":{},\"worker\":\"{}\"}}", b >> 8, phase, stall, label);
+                        let _ = std::io::stdout().flush();
+                        std::process::exit(3);
+                    }
+                }
+            });
             let mut hashes: HashSet<u64> = HashSet::new();
             let mut nontriv = 0u64;
             let mut done = 0u64;
@@ -220,6 +245,7 @@ fn main() {
                     watchdog = true;
                     break;
                 }
+                world::BEACON.store(i << 8, std::sync::atomic::Ordering::Relaxed);
                 let r = one(&p, i);
                 done += 1;
                 ops += r.ops as u64;
@@ -355,6 +381,7 @@ fn main() {
                     track_blocks: monitor,
                     migrate: r.chance(1, 4),
                     cancel_after: if r.chance(1, 4) { Some(r.range(1, 12) as u64) } else { None },
+                    raw: r.chance(1, 2),
                     kind,
                 };
                 let rs = prng::splitmix(&mut (seed ^ i.wrapping_mul(0x9E37_79B9_7F4A_7C15)));
@@ -383,6 +410,7 @@ fn main() {
                 *tot.entry("items_yielded").or_insert(0) += st.items;
                 *tot.entry("rounds_with_consumer_on_another_thread").or_insert(0) += cfg.migrate as u64;
                 *tot.entry("rounds_cancelled_while_wakers_running").or_insert(0) += st.cancelled as u64;
+                *tot.entry("rounds_with_uninstrumented_children").or_insert(0) += cfg.raw as u64;
                 let nt = match prop {
                     3 => st.orphan_calls > 0,
                     _ => st.overlapping_wakes > 0,
